@@ -8,7 +8,8 @@ of the file searches the name".  Not decided: regex semantics, floor arithmetic.
 import ast
 
 from ..model import dotted, unparse, norm, walk_no_nested
-from ..rulelib import Ctx, nodes_calling, reaching_defs, value_assigned, short
+from ..symeval import show
+from ..rulelib import Ctx, nodes_calling, reaching_defs, value_assigned, short, resolve_copies, local_sources
 from ..registry import sites
 
 EV = 'carbon.events.metricReceived'
@@ -46,76 +47,84 @@ def run(check):
   # ------------------------------------------------------------------ drop paths
   r_d = check.rule('R-C12-drops-enumerated', 3, 'every path that does not dispatch the datapoint is one of the stated drops')
   r_d.require(emits, 'metricReceived does not dispatch to events.metricReceived')
-  classes = {}
+  from ..paths import PathExec
+  P = ('param', dvar)
+  RAW_TS = (('sub', P, 0), ('field', P, 0))
+  RAW_VAL = (('sub', P, 1), ('field', P, 1))
 
-  def classify(pol, t, node):
-    # blacklist / whitelist membership
-    if isinstance(t, ast.Compare) and len(t.ops) == 1 and isinstance(t.left, ast.Name) and t.left.id == mvar:
-      lst = _list_origin(T, t.comparators[0], fn)
-      isin = isinstance(t.ops[0], ast.In)
-      notin = isinstance(t.ops[0], ast.NotIn)
-      if lst == 'BlackList' and ((isin and pol == 'T') or (notin and pol == 'F')):
+  def classify(pol, t, a):
+    """the drop a decision stands for, or None.  t: test term (sa/paths.py), a: the test's ast."""
+    if not isinstance(t, tuple):
+      return None
+    if t[0] in ('in', 'notin') and t[1] == ('param', mvar) and isinstance(a, ast.Compare):
+      lst = _list_origin(T, a.comparators[0], fn)
+      isin = (t[0] == 'in') == (pol == 'T')
+      if lst == 'BlackList' and isin:
         return 'blacklist match'
-      if lst == 'WhiteList' and ((notin and pol == 'T') or (isin and pol == 'F')):
+      if lst == 'WhiteList' and not isin:
         return 'whitelist miss'
-    # NaN test of component 1
-    if isinstance(t, ast.Compare) and len(t.ops) == 1 and isinstance(t.ops[0], ast.NotEq) and pol == 'T':
-      a, b = unparse(t.left), unparse(t.comparators[0])
-      if a == b and a.replace(' ', '') in ('%s[1]' % dvar, 'value'):
-        if a.startswith(dvar) or _derives_component(g, node, t.left, dvar, 1):
-          return 'NaN value'
-    if isinstance(t, ast.Call) and (dotted(t.func) or '').split('.')[-1] == 'isnan' and pol == 'T' and t.args and \
-       (unparse(t.args[0]).replace(' ', '') == '%s[1]' % dvar or _derives_component(g, node, t.args[0], dvar, 1)):
+    if t[0] == 'cmp' and t[2] == t[3] and t[2] in RAW_VAL and ((t[1] == 'NotEq' and pol == 'T') or (t[1] == 'Eq' and pol == 'F')):
+      return 'NaN value'
+    if t[0] == 'call' and t[1].split('.')[-1] == 'isnan' and len(t) == 3 and pol == 'T' and \
+       (t[2] in RAW_VAL or (t[2][0] == 'call' and t[2][1] == 'float' and t[2][2] in RAW_VAL)):
       return 'NaN value'
     return None
-  guard_edges = {}
-  for n in g.nodes:
-    for y, lab in n.succ:
-      if isinstance(lab, tuple):
-        k = classify(lab[0], lab[1], n)
-        if k:
-          guard_edges[(n.id, y.id, lab[0])] = k
-          classes.setdefault(k, n)
-  # handler of a failed integer conversion of the timestamp
-  ts_handlers = set()
-  for h in [n for n in g.nodes if n.kind == 'handler']:
-    tr = getattr(h.ast, '_parent', None)
+
+  def conversion_failure(t, h):
+    """t: ('raised', call terms...) of the statement that raised into handler node h: the integer conversion of the raw
+    timestamp and nothing else, caught by a handler for conversion errors only?"""
     types = unparse(h.ast.type) if h.ast.type is not None else ''
-    body_ints = [c for s in tr.body for c in ast.walk(s) if isinstance(c, ast.Call) and isinstance(c.func, ast.Name) and
-                 c.func.id == 'int' and c.args and unparse(c.args[0]).replace(' ', '') == '%s[0]' % dvar]
-    only_conv = all(isinstance(s, ast.Assign) for s in tr.body) and len(tr.body) == 1
-    if body_ints and only_conv and ('ValueError' in types or 'OverflowError' in types) and 'Exception' not in types.replace('Exception)', ''):
-      ts_handlers.add(h)
-      classes.setdefault('unparsable timestamp', h)
-  removed_edge = lambda a, lab, b: isinstance(lab, tuple) and (a.id, b.id, lab[0]) in guard_edges   # noqa
-  rr = g.reach([g.entry], removed_nodes=set(emits) | ts_handlers, removed_edge=removed_edge, normal_only=False)
-  if g.exit in rr:
-    p = g.path([g.entry], g.exit, removed_nodes=set(emits) | ts_handlers, removed_edge=removed_edge)
-    last = [x for x in p if x.ast is not None]
-    r_d.violate('unclassified drop path', fn, last[-1].ast if last else None, 'metricReceived can return without dispatching the '
-                'datapoint on a path that is not a blacklist match, a whitelist miss, a NaN value or an unparsable timestamp: '
-                'some other datapoint is filtered', path=g.describe_path(p))
-  else:
-    r_d.ok('all non-dispatching exits are classified drops', fn.loc())
-  for k in ('blacklist match', 'whitelist miss', 'NaN value'):
-    if k in classes:
-      # the guarded branch must really drop (not dispatch)
-      n = classes[k]
-      r_d.ok('%s guard present' % k, fn.loc(n.ast))
+    names = {x.strip().split('.')[-1] for x in types.strip('()').split(',') if x.strip()}
+    if not names or not names <= {'ValueError', 'OverflowError', 'TypeError'}:
+      return False
+    calls = t[1:]
+    return bool(calls) and all(c[0] == 'call' and c[1] in ('int', 'float') and len(c) == 3 and
+                               (c[2] in RAW_TS or (c[2][0] == 'call' and c[2][1] in ('int', 'float') and c[2][2] in RAW_TS))
+                               for c in calls)
+
+  px = PathExec(cx, fn)
+  seen_classes = {}
+  n_drop = n_emit = n_unclassified = 0
+  emit_set = set(emits)
+  for hit in px.run([g.exit]):
+    passed = [n for n in hit.trail if n in emit_set]
+    kinds = []
+    for pol, t, a, n in hit.conds:
+      k = classify(pol, t, a) if pol in ('T', 'F') else None
+      if k:
+        kinds.append((k, a, n))
+    for pol, t, a, n in hit.conds:
+      if pol == 'X' and n.kind == 'handler' and conversion_failure(t, n):
+        kinds.append(('unparsable timestamp', n.ast, n))
+    if len(passed) > 1:
+      r_d.violate('dispatched twice', fn, passed[0].ast, 'a datapoint can be dispatched to the pipeline more than once')
+    if passed:
+      n_emit += 1
+      if kinds:
+        k, a, n = kinds[0]
+        r_d.violate('%s still dispatched' % k, fn, a, 'after `%s` classified the datapoint as a %s, it can still reach '
+                    'events.metricReceived' % (short(a), k))
+      continue
+    n_drop += 1
+    if not kinds:
+      last = [x for x in hit.trail if x.ast is not None]
+      n_unclassified += 1
+      r_d.violate('unclassified drop path', fn, last[-1].ast if last else None, 'metricReceived can return without dispatching the '
+                  'datapoint on a path that is not a blacklist match, a whitelist miss, a NaN value or an unparsable timestamp: '
+                  'some other datapoint is filtered', path=hit.describe())
     else:
-      r_d.violate('%s not filtered' % k, fn, None, 'metricReceived has no guard that drops a datapoint on a %s' % k,
+      for k, a, n in kinds:
+        seen_classes.setdefault(k, a)
+  if px.truncated:
+    r_d.cannot_decide('too many paths through metricReceived')
+  if n_drop and not n_unclassified:
+    r_d.ok('all %d non-dispatching paths are classified drops' % n_drop, fn.loc())
+  for k in ('blacklist match', 'whitelist miss', 'NaN value'):
+    if k in seen_classes:
+      r_d.ok('%s guard present' % k, fn.loc(seen_classes[k]))
+    else:
+      r_d.violate('%s not filtered' % k, fn, None, 'metricReceived has no path that drops a datapoint on a %s' % k,
                   construct='guard: %s' % k)
-  # each classified guard leads to a drop: from the guard edge, the dispatch must be unreachable
-  for (a_id, b_id, pol), k in sorted(guard_edges.items()):
-    b = g.nodes[b_id]
-    if any(e in g.reach([b], normal_only=True) for e in emits):
-      a = g.nodes[a_id]
-      r_d.violate('%s still dispatched' % k, fn, a.ast, 'after the `%s` test classified the datapoint as a %s, it can still reach '
-                  'events.metricReceived' % (short(a.ast), k))
-  # the dispatch happens exactly once
-  for e in emits:
-    if any(e2 in g.reach(g.after(e), normal_only=True) for e2 in emits):
-      r_d.violate('dispatched twice', fn, e.ast, 'a datapoint can be dispatched to the pipeline more than once')
 
   # ------------------------------------------------------------------ normalisation
   r_n = check.rule('R-C12-normalisation', 4, 'only "-1 -> now" and the resolution floor alter an admitted datapoint, in that order')
@@ -176,7 +185,10 @@ def run(check):
     rets_false = [n for n in gc.nodes if n.kind == 'stmt' and isinstance(n.ast, ast.Return) and
                   isinstance(n.ast.value, ast.Constant) and n.ast.value.value is False]
     okc = bool(loops) and bool(rets_true) and bool(rets_false)
-    if okc:
+    any_form = _contains_any_form(cont, val)
+    if any_form:
+      okc = True
+    elif okc:
       lv = loops[0].owner.target.id if isinstance(loops[0].owner.target, ast.Name) else None
       def search_true(a, lab, b):
         return isinstance(lab, tuple) and lab[0] == 'T' and isinstance(lab[1], ast.Call) and \
@@ -203,18 +215,22 @@ def run(check):
     gr = cx.cfg(rd)
     assigns = [n for n in gr.nodes if n.kind == 'stmt' and isinstance(n.ast, ast.Assign) and
                any(dotted(t) == 'self.regex_list' for t in n.ast.targets) and isinstance(n.ast.value, ast.Name)]
-    line_loops = [n for n in gr.nodes if n.kind == 'loop' and isinstance(n.owner, ast.For) and
-                  isinstance(n.owner.iter, ast.Call) and (dotted(n.owner.iter.func) or '') in ('open', 'io.open')]
+    line_loops = [n for n in gr.nodes if n.kind == 'loop' and isinstance(n.owner, ast.For) and _iterates_file(rd, n.owner.iter)]
     if not assigns or not line_loops:
       r_l.cannot_decide('read_list: list assignment or line loop not recognised')
     else:
-      lst = assigns[-1].ast.value.id
+      lst_names = _copy_closure(rd, assigns[-1].ast.value.id)
       loop = line_loops[0].owner
       apps = [c for c in walk_no_nested(rd.node, include_self=False) if isinstance(c, ast.Call) and isinstance(c.func, ast.Attribute)
-              and dotted(c.func.value) == lst and c.func.attr in ('append', 'extend', 'insert')]
-      bad = [c for c in apps if not (c.func.attr == 'append' and any(x is c for x in ast.walk(loop)) and c.args and
-                                     isinstance(c.args[0], ast.Call) and (dotted(c.args[0].func) or '') == 're.compile' and
-                                     len(c.args[0].args) == 1 and isinstance(c.args[0].args[0], ast.Name))]
+              and isinstance(c.func.value, ast.Name) and c.func.value.id in lst_names and c.func.attr in ('append', 'extend', 'insert')]
+
+      def one_compiled_line(c):
+        if not (c.func.attr == 'append' and any(x is c for x in ast.walk(loop)) and c.args):
+          return False
+        vals = resolve_copies(rd, c.args[0])
+        return bool(vals) and all(isinstance(v, ast.Call) and (dotted(v.func) or '') == 're.compile' and len(v.args) == 1 and
+                                  isinstance(v.args[0], ast.Name) and any(x is v for x in ast.walk(loop)) for v in vals)
+      bad = [c for c in apps if not one_compiled_line(c)]
       if apps and not bad:
         r_l.ok('one re.compile(<line pattern>) appended per file line', rd.loc(apps[0]))
       else:
@@ -249,7 +265,11 @@ def run(check):
 
 
 def rule_normalisation(check, cx, r_n):
-  """only "-1 -> now" and the resolution floor alter an admitted datapoint, in that order (shared with C01 and C15)."""
+  """only "-1 -> now" and the resolution floor alter an admitted datapoint, in that order (shared with C01 and C15).
+
+  Decided per path (sa/paths.py): on every path from the entry of metricReceived to the dispatch, the terms of the
+  dispatched metric / value / timestamp are compared with what the decisions taken on that path require."""
+  from ..paths import PathExec, mentions
   repo, T = check.repo, check.types
   mr = repo.cls('carbon.protocols', 'MetricReceiver')
   fn = mr.methods.get('metricReceived')
@@ -257,126 +277,164 @@ def rule_normalisation(check, cx, r_n):
     r_n.cannot_decide('MetricReceiver.metricReceived not found')
     return
   g = cx.cfg(fn)
-  params = fn.params
-  mvar, dvar = params[1], params[2]
+  mvar, dvar = fn.params[1], fn.params[2]
   emits = nodes_calling(g, lambda c: T.event_origin(c.func, fn.module, fn) == EV)
-  for e in emits:
-    call = [c for c in g.calls(e) if T.event_origin(c.func, fn.module, fn) == EV][0]
-    if len(call.args) == 2 and isinstance(call.args[0], ast.Name) and isinstance(call.args[1], ast.Tuple) and \
-       len(call.args[1].elts) == 2:
-      # the datapoint is rebuilt in the call itself: judge its two components directly
-      a_m = call.args[0]
-      t0, v1 = call.args[1].elts
-      if reaching_defs(g, a_m.id, e) == [g.entry] and a_m.id == mvar:
-        r_n.ok('metric name passed on unchanged', fn.loc(call))
-      else:
-        r_n.violate('metric name altered', fn, call, 'the metric name dispatched is not the unmodified `%s` parameter' % mvar)
-      if unparse(v1).replace(' ', '') == '%s[1]' % dvar and reaching_defs(g, dvar, e) == [g.entry] or _derives_component(g, e, v1, dvar, 1):
-        r_n.ok('value component passed on unchanged', fn.loc(call))
-      else:
-        r_n.violate('value altered', fn, call, 'the value component dispatched is `%s`, not the received value' % unparse(v1))
-      if isinstance(t0, ast.Name):
-        for d in reaching_defs(g, t0.id, e):
-          v = value_assigned(d, t0.id) if d is not g.entry else None
-          vt = unparse(v).replace(' ', '') if isinstance(v, ast.AST) else str(v)
-          if isinstance(v, ast.AST) and (vt == '%s[0]' % dvar or _derives_component(g, d, v, dvar, 0)):
-            continue
-          if isinstance(v, ast.AST) and any(isinstance(x, ast.BinOp) and isinstance(x.op, ast.FloorDiv) for x in ast.walk(v)):
-            res_true = lambda a, lab, b: isinstance(lab, tuple) and lab[0] == 'T' and _is_resolution(g, a, lab[1])   # noqa
-            if d not in g.reach([g.entry], removed_edge=res_true, normal_only=True):
-              continue
-          if isinstance(v, ast.AST) and 'time' in vt and 'time(' in vt:
-            m1 = lambda a, lab, b: isinstance(lab, tuple) and lab[0] == 'T' and isinstance(lab[1], ast.Compare) and \
-              isinstance(lab[1].ops[0], ast.Eq) and unparse(lab[1].comparators[0]).replace(' ', '') == '-1'   # noqa
-            if d not in g.reach([g.entry], removed_edge=m1, normal_only=True) and vt in ('time.time()', 'time()', 'int(time.time())', 'int(time())'):
-              continue
-          r_n.violate('timestamp altered', fn, d.ast if d is not g.entry else call, 'the timestamp dispatched can be `%s`: an admitted '
-                      'datapoint whose timestamp is neither -1 nor subject to MIN_TIMESTAMP_RESOLUTION must keep the timestamp it was '
-                      'sent with (e.g. int() drops the fractional part)' % vt)
-      elif unparse(t0).replace(' ', '') != '%s[0]' % dvar:
-        r_n.violate('timestamp altered', fn, call, 'the timestamp dispatched is `%s`' % unparse(t0))
-      continue
-    if len(call.args) != 2 or not all(isinstance(a, ast.Name) for a in call.args):
-      r_n.cannot_decide('dispatch call is not events.metricReceived(<name>, <name>)')
-      continue
-    a_m, a_d = call.args
-    if reaching_defs(g, a_m.id, e) == [g.entry] and a_m.id == mvar:
-      r_n.ok('metric name passed on unchanged', fn.loc(call))
-    else:
-      r_n.violate('metric name altered', fn, call, 'the metric name dispatched is not the unmodified `%s` parameter' % mvar)
-    defs = [d for d in reaching_defs(g, a_d.id, e)]
-    if a_d.id != dvar:
-      r_n.cannot_decide('dispatched datapoint is not the `%s` variable' % dvar)
-      continue
-    all_defs = [d for d in g.nodes if d.kind == 'stmt' and isinstance(d.ast, ast.Assign) and
-                any(isinstance(t, ast.Name) and t.id == dvar for t in d.ast.targets)]
-    now_defs, floor_defs = [], []
-    for d in all_defs:
-      v = d.ast.value
-      if not (isinstance(v, ast.Tuple) and len(v.elts) == 2):
-        r_n.violate('datapoint rebuilt', fn, d.ast, 'the datapoint is replaced by `%s`, not by (new timestamp, same value)' % short(v))
-        continue
-      if unparse(v.elts[1]).replace(' ', '') != '%s[1]' % dvar and not _derives_component(g, d, v.elts[1], dvar, 1):
-        r_n.violate('value altered', fn, d.ast, 'the value component of an admitted datapoint is replaced by `%s`' % unparse(v.elts[1]))
-        continue
-      t0 = v.elts[0]
-      if isinstance(t0, ast.Call) and (dotted(t0.func) or '') in ('time.time', 'time'):
-        now_defs.append(d)
-      elif any(isinstance(x, ast.BinOp) and isinstance(x.op, ast.FloorDiv) for x in ast.walk(t0)) or \
-          (isinstance(t0, ast.Name) and any(isinstance(x, ast.BinOp) and isinstance(x.op, ast.FloorDiv)
-                                            for rd in reaching_defs(g, t0.id, d) if rd is not g.entry
-                                            for x in ast.walk(rd.ast))):
-        floor_defs.append(d)
-      else:
-        r_n.violate('timestamp altered', fn, d.ast, 'the timestamp of an admitted datapoint is replaced by `%s`, which is neither '
-                    'the current time nor a floor to the resolution' % unparse(t0))
-    # (a) the "-1" guard
-    for d in now_defs:
-      def minus1(a, lab, b):
-        if not (isinstance(lab, tuple) and lab[0] == 'T'):
-          return False
-        t = lab[1]
-        return isinstance(t, ast.Compare) and len(t.ops) == 1 and isinstance(t.ops[0], ast.Eq) and \
-          unparse(t.comparators[0]).replace(' ', '') == '-1'
-      if d in g.reach([g.entry], removed_edge=minus1, normal_only=True):
-        r_n.violate('timestamp replaced without the -1 test', fn, d.ast, 'the timestamp is replaced by the current time on a path '
-                    'that did not find it equal to -1')
-      else:
-        r_n.ok('"now" substituted only under `== -1`', fn.loc(d.ast))
-      # the tested operand must be the raw timestamp (not a floored one)
-      for (a, lab, b) in g.test_edges(lambda pol, t, n: pol == 'T' and isinstance(t, ast.Compare) and len(t.ops) == 1 and
-                                      isinstance(t.ops[0], ast.Eq) and unparse(t.comparators[0]).replace(' ', '') == '-1'):
-        left = lab[1].left
-        if not _raw_timestamp(g, a, left, dvar):
-          r_n.violate('-1 tested after flooring', fn, lab[1], 'the `== -1` test is applied to `%s`, which is not (only) the raw '
-                      'timestamp of the datapoint: once floored to MIN_TIMESTAMP_RESOLUTION, -1 is no longer recognised'
-                      % unparse(left))
-        else:
-          r_n.ok('-1 tested on the raw timestamp', fn.loc(lab[1]))
-      # the floor applies to the substituted time as well
-      res_false = lambda a, lab, b: isinstance(lab, tuple) and lab[0] == 'F' and _is_resolution(g, a, lab[1])   # noqa
-      rr2 = g.reach(g.after(d), removed_nodes=set(floor_defs), removed_edge=res_false, normal_only=True)
-      if any(e2 in rr2 for e2 in emits):
-        r_n.violate('substituted time not floored', fn, d.ast, 'after the timestamp was replaced by the current time the datapoint '
-                    'can be dispatched without the MIN_TIMESTAMP_RESOLUTION floor having been applied (or found disabled)')
-      else:
-        r_n.ok('the floor is applied after the "now" substitution', fn.loc(d.ast))
-    if not now_defs:
-      r_n.violate('-1 not replaced', fn, None, 'no statement replaces a timestamp of -1 by the current time',
-                  construct='datapoint = (time.time(), datapoint[1])')
-    # (b) the floor guard
-    for d in floor_defs:
-      res_true = lambda a, lab, b: isinstance(lab, tuple) and lab[0] == 'T' and _is_resolution(g, a, lab[1])   # noqa
-      if d in g.reach([g.entry], removed_edge=res_true, normal_only=True):
-        r_n.violate('floor without resolution', fn, d.ast, 'the timestamp is floored on a path where MIN_TIMESTAMP_RESOLUTION was '
-                    'not found set')
-      else:
-        txt = unparse(d.ast.value.elts[0]).replace(' ', '')
-        r_n.ok('floor only when MIN_TIMESTAMP_RESOLUTION is set: %s' % txt, fn.loc(d.ast))
-    if not floor_defs:
-      r_n.violate('resolution floor missing', fn, None, 'no statement floors the timestamp to MIN_TIMESTAMP_RESOLUTION',
-                  construct='timestamp // res * res')
+  if not emits:
+    r_n.cannot_decide('metricReceived never dispatches to events.metricReceived')
+    return
+  P = ('param', dvar)
+  RAW_TS = (('sub', P, 0), ('field', P, 0))
+  RAW_VAL = (('sub', P, 1), ('field', P, 1))
+  NOW = (('call', 'time.time'), ('call', 'time'))
 
+  def is_res(t):
+    return isinstance(t, tuple) and t[0] == 'attr' and t[-1] == 'MIN_TIMESTAMP_RESOLUTION'
+
+  def unfloor(t):
+    """(inner, divisor) if t == inner // d * d  (or d * (inner // d), inner - inner % d); else (None, None)"""
+    if isinstance(t, tuple) and t[0] == 'binop' and t[1] == 'Mult':
+      for a, b in ((t[2], t[3]), (t[3], t[2])):
+        if isinstance(a, tuple) and a[0] == 'binop' and a[1] == 'FloorDiv' and a[3] == b:
+          return a[2], b
+        if isinstance(a, tuple) and a[0] == 'call' and a[1] == 'int' and len(a) == 3 and isinstance(a[2], tuple) and \
+           a[2][0] == 'binop' and a[2][1] in ('FloorDiv', 'Div') and a[2][3] == b:
+          return a[2][2], b
+    if isinstance(t, tuple) and t[0] == 'binop' and t[1] == 'Sub' and isinstance(t[3], tuple) and t[3][0] == 'binop' and \
+       t[3][1] == 'Mod' and t[3][2] == t[2]:
+      return t[2], t[3][3]
+    return None, None
+
+  def base_kind(t):
+    if t in RAW_TS:
+      return 'raw'
+    if t in NOW:
+      return 'now'
+    if isinstance(t, tuple) and t[0] == 'call' and t[1] in ('int', 'float') and len(t) == 3:
+      k = base_kind(t[2])
+      if k in ('raw', 'now'):
+        return ('int-' if t[1] == 'int' else '') + k
+      return None if k is None else k
+    return None
+
+  seen_now = seen_floor = 0
+  npaths = 0
+  px = PathExec(cx, fn)
+  for hit in px.run(emits):
+    call = [c for c in g.calls(hit.node) if T.event_origin(c.func, fn.module, fn) == EV][0]
+    if len(call.args) != 2:
+      r_n.cannot_decide('dispatch call is not events.metricReceived(<metric>, <datapoint>)')
+      continue
+    # decisions taken on this path
+    minus1 = None
+    res = None
+    contradictory = False
+    taken = {}
+    for pol, t, a, n in hit.conds:
+      if pol not in ('T', 'F'):
+        continue
+      key = repr(t)
+      if key in taken and taken[key] != pol:
+        contradictory = True
+      taken[key] = pol
+      if isinstance(t, tuple) and t[0] == 'cmp' and t[1] in ('Eq', 'NotEq', 'Is', 'IsNot') and (t[2] == ('const', -1) or t[3] == ('const', -1)):
+        x = t[3] if t[2] == ('const', -1) else t[2]
+        val = (pol == 'T') == (t[1] in ('Eq', 'Is'))
+        if base_kind(x) not in ('raw', 'int-raw'):
+          r_n.violate('-1 tested after flooring', fn, a, 'the `== -1` test is applied to `%s`, which is not the raw timestamp of the '
+                      'datapoint: once floored to MIN_TIMESTAMP_RESOLUTION (or otherwise altered), -1 is no longer recognised'
+                      % unparse(a.left if isinstance(a, ast.Compare) else a))
+        minus1 = val if minus1 is None or minus1 == val else 'both'
+      elif (t[0] == 'truth' and is_res(t[1])) or (t[0] == 'cmp' and (is_res(t[2]) or is_res(t[3]))):
+        if t[0] == 'truth':
+          val = pol == 'T'
+        elif t[0] == 'cmp' and t[1] in ('Gt', 'NotEq', 'IsNot') and is_res(t[2]):
+          val = pol == 'T'
+        elif t[0] == 'cmp' and t[1] in ('LtE', 'Eq', 'Is') and is_res(t[2]):
+          val = pol != 'T'
+        elif t[0] == 'cmp' and t[1] == 'Lt' and is_res(t[3]):
+          val = pol == 'T'
+        else:
+          r_n.cannot_decide('unrecognised test of MIN_TIMESTAMP_RESOLUTION: `%s`' % unparse(a))
+          continue
+        res = val if res is None or res == val else 'both'
+    if contradictory or minus1 == 'both' or res == 'both':
+      continue                # the same test decided both ways: not a path of the program
+    npaths += 1
+    m_t = hit.term(call.args[0], px)
+    d_t = hit.term(call.args[1], px)
+    if m_t != ('param', mvar):
+      r_n.violate('metric name altered', fn, call, 'the metric name dispatched is not the unmodified `%s` parameter' % mvar)
+    if d_t == P:
+      ts_t, v_t = RAW_TS[0], RAW_VAL[0]
+    elif isinstance(d_t, tuple) and d_t[0] == 'tuple' and len(d_t) == 3:
+      ts_t, v_t = d_t[1], d_t[2]
+    else:
+      r_n.violate('datapoint rebuilt', fn, call, 'the datapoint dispatched is `%s`, not (timestamp, value)' % short(call.args[1]))
+      continue
+    if v_t not in RAW_VAL:
+      r_n.violate('value altered', fn, call, 'the value component dispatched is `%s`, not the received value' % show(v_t))
+    inner, div = unfloor(ts_t)
+    floored = inner is not None
+    base = base_kind(inner if floored else ts_t)
+    where = _where(fn, hit, call, dvar)
+    if minus1 is None:
+      r_n.violate('timestamp never compared with -1', fn, where, 'a datapoint can be dispatched on a path that never compared its '
+                  'timestamp with -1: "-1 means now" is not applied there')
+      continue
+    if base is None:
+      r_n.violate('timestamp altered', fn, where, 'the timestamp dispatched can be `%s`: an admitted datapoint keeps the timestamp it '
+                  'was sent with unless that is -1 (-> current time) or MIN_TIMESTAMP_RESOLUTION floors it' % show(ts_t))
+      continue
+    if minus1 and base not in ('now', 'int-now'):
+      r_n.violate('-1 not replaced', fn, where, 'on the path where the timestamp equals -1 the dispatched timestamp is `%s`, not the '
+                  'current time' % show(ts_t), construct='datapoint = (time.time(), datapoint[1])')
+      continue
+    if not minus1 and base in ('now', 'int-now'):
+      r_n.violate('timestamp replaced without the -1 test', fn, where, 'the timestamp is replaced by the current time on a path '
+                  'that did not find it equal to -1')
+      continue
+    if res is None:
+      r_n.violate('resolution never consulted', fn, where, 'a datapoint can be dispatched on a path that never looked at '
+                  'MIN_TIMESTAMP_RESOLUTION: the floor is not applied there', construct='timestamp // res * res')
+      continue
+    if res and not floored:
+      r_n.violate('substituted time not floored' if minus1 else 'resolution floor missing', fn, where,
+                  'with MIN_TIMESTAMP_RESOLUTION set, the dispatched timestamp `%s` is not floored to it%s'
+                  % (show(ts_t), ' (after the "now" substitution)' if minus1 else ''), construct='timestamp // res * res')
+      continue
+    if floored and not is_res(div):
+      r_n.violate('floor to something else', fn, where, 'the timestamp is floored to `%s`, not to MIN_TIMESTAMP_RESOLUTION' % show(div))
+      continue
+    if floored and not res:
+      r_n.violate('floor without resolution', fn, where, 'the timestamp is floored on a path where MIN_TIMESTAMP_RESOLUTION was '
+                  'not found set')
+      continue
+    if not floored and not minus1 and base != 'raw':
+      r_n.violate('timestamp altered', fn, where, 'without -1 and without a resolution the timestamp dispatched is `%s`, not the one '
+                  'received (int() drops the fractional part)' % show(ts_t))
+      continue
+    seen_now += 1 if minus1 else 0
+    seen_floor += 1 if floored else 0
+    r_n.ok('path [-1:%s, resolution:%s] dispatches (%s, value) for the unmodified metric'
+           % ('yes' if minus1 else 'no', 'set' if res else 'unset', show(ts_t)), fn.loc(call))
+  if px.truncated:
+    r_n.cannot_decide('too many paths through metricReceived')
+  if npaths and not seen_now:
+    r_n.violate('-1 not replaced', fn, None, 'no path replaces a timestamp of -1 by the current time',
+                construct='datapoint = (time.time(), datapoint[1])')
+  if npaths and not seen_floor:
+    r_n.violate('resolution floor missing', fn, None, 'no path floors the timestamp to MIN_TIMESTAMP_RESOLUTION',
+                construct='timestamp // res * res')
+
+
+def _where(fn, hit, call, dvar):
+  """the last statement on the path that assigned the datapoint (or a name feeding the dispatch); the call otherwise."""
+  names = {x.id for x in ast.walk(call) if isinstance(x, ast.Name)}
+  for n in reversed(hit.trail):
+    a = n.ast
+    if n.kind == 'stmt' and isinstance(a, ast.Assign) and any(isinstance(t, ast.Name) and t.id in names for t in a.targets):
+      return a
+  return call
 
 
 def _derives_component(g, node, expr, dvar, idx):
@@ -427,3 +485,57 @@ def _is_resolution(g, node, t):
         return False
     return True
   return False
+
+
+def _copy_closure(fn, name):
+  """the local names that (transitively) feed ``name`` by plain copies, itself included."""
+  names = {name}
+  changed = True
+  while changed:
+    changed = False
+    for n in walk_no_nested(fn.node, include_self=False):
+      if isinstance(n, ast.Assign) and isinstance(n.value, ast.Name):
+        for t in n.targets:
+          if isinstance(t, ast.Name) and t.id in names and n.value.id not in names:
+            names.add(n.value.id)
+            changed = True
+  return names
+
+
+def _iterates_file(fn, it):
+  """the iterable of a ``for`` is an opened file (open(...), a name bound to one by assignment or ``with ... as``, .readlines())."""
+  if isinstance(it, ast.Call) and isinstance(it.func, ast.Attribute) and it.func.attr in ('readlines', 'splitlines', 'read'):
+    return _iterates_file(fn, it.func.value)
+  if isinstance(it, ast.Call) and (dotted(it.func) or '') in ('open', 'io.open', 'codecs.open'):
+    return True
+  if isinstance(it, ast.Name):
+    srcs = resolve_copies(fn, it)
+    return bool(srcs) and srcs != [it] and all(
+      (isinstance(x, tuple) and x[0] == 'with' and _iterates_file(fn, x[1])) or (isinstance(x, ast.AST) and _iterates_file(fn, x))
+      for x in srcs)
+  return False
+
+
+def _contains_any_form(cont, val):
+  """def __contains__(self, value): return any(<p>.search(value) for <p> in self.regex_list)"""
+  body = [x for x in cont.node.body if not (isinstance(x, ast.Expr) and isinstance(x.value, ast.Constant))]
+  if len(body) != 1 or not isinstance(body[0], ast.Return):
+    return False
+  v = body[0].value
+  if isinstance(v, ast.Call) and isinstance(v.func, ast.Name) and v.func.id == 'bool' and len(v.args) == 1:
+    v = v.args[0]
+  if not (isinstance(v, ast.Call) and isinstance(v.func, ast.Name) and v.func.id == 'any' and len(v.args) == 1 and
+          isinstance(v.args[0], (ast.GeneratorExp, ast.ListComp))):
+    return False
+  comp = v.args[0]
+  if len(comp.generators) != 1 or comp.generators[0].ifs:
+    return False
+  gen = comp.generators[0]
+  if dotted(gen.iter) != 'self.regex_list' or not isinstance(gen.target, ast.Name):
+    return False
+  e = comp.elt
+  if isinstance(e, ast.Compare) and len(e.ops) == 1 and isinstance(e.ops[0], ast.IsNot) and \
+     isinstance(e.comparators[0], ast.Constant) and e.comparators[0].value is None:
+    e = e.left
+  return isinstance(e, ast.Call) and isinstance(e.func, ast.Attribute) and e.func.attr == 'search' and \
+    dotted(e.func.value) == gen.target.id and len(e.args) == 1 and dotted(e.args[0]) == val
